@@ -3886,7 +3886,11 @@ fn write_residuals<W: BitWrite>(
         block_size: usize,
         residuals: &'r [i32],
     ) -> ArrayVec<Partition<'r, RICE_MAX>, MAX_PARTITIONS> {
-        (0..=block_size.trailing_zeros().min(options.max_partition_order))
+        // no more partitions than the candidate buffers can hold
+        (0..=block_size
+            .trailing_zeros()
+            .min(options.max_partition_order)
+            .min(MAX_PARTITIONS.ilog2()))
             .map(|partition_order| 1 << partition_order)
             .take_while(|partition_count: &usize| partition_count.is_power_of_two())
             .filter_map(|partition_count| {
